@@ -826,7 +826,7 @@ def rule_f(chk: Check, eng: Engine) -> None:
                 "a tree violating a constraint is emitted as a solution", keyparts="not-convex|" + "|".join(sorted(p.split(' ')[0] for p in problems)))
 
 
-def rule_g(chk: Check, eng: Engine) -> None:
+def failing_score_rule(chk: Check, eng: Engine, rule: str = "R02-g") -> None:
     """R02-g: the verdict of a scored constraint is `all(score == 1.0)`, and the evaluator compares the mean of the scores
     with the threshold - so a combination that does not hold must never score 1.0 in float arithmetic."""
     cls = eng.cls("fandango.constraints.comparison", "ComparisonConstraint")
@@ -839,18 +839,24 @@ def rule_g(chk: Check, eng: Engine) -> None:
         in_loop = any(l.lineno <= st.line <= (l.end_lineno or l.lineno) for l in loops)
         if st.via == "literal":
             if st.failing.may_equal(1.0) and in_loop:
-                chk.bad("R02-g", eng.relfile(fn), st.line, fn.fq, f"`{lst}.append({short(st.expr)})` scores a combination 1.0 without evaluating it",
+                chk.bad(rule, eng.relfile(fn), st.line, fn.fq, f"`{lst}.append({short(st.expr)})` scores a combination 1.0 without evaluating it",
                         "an unevaluated combination counts as satisfied", keyparts="literal-one-in-loop")
             else:
-                chk.ok("R02-g", fn.fq, st.line, f"`{lst}.append({short(st.expr)})`: score {st.failing}" + ("" if in_loop else " (outside the combination loop: vacuous truth, R07-d)"))
+                chk.ok(rule, fn.fq, st.line, f"`{lst}.append({short(st.expr)})`: score {st.failing}" + ("" if in_loop else " (outside the combination loop: vacuous truth, R07-d)"))
             continue
         if st.failing.may_equal(1.0):
-            chk.bad("R02-g", eng.relfile(fn), st.line, fn.fq,
+            chk.bad(rule, eng.relfile(fn), st.line, fn.fq,
                     f"when the comparison does not hold, the score from {st.via} ranges over {st.failing}, which includes 1.0",
                     "the verdict is `all(score == 1.0)` and the evaluator compares the mean score with the threshold: a violated comparison "
                     "that scores 1.0 (e.g. a distance that rounds to 0) makes the tree a solution", keyparts="failing-score-may-be-one")
         else:
-            chk.ok("R02-g", fn.fq, st.line, f"failing comparison scores {st.failing} via {st.via}: never 1.0")
+            chk.ok(rule, fn.fq, st.line, f"failing comparison scores {st.failing} via {st.via}: never 1.0")
+
+
+
+
+def rule_g(chk: Check, eng: Engine) -> None:
+    failing_score_rule(chk, eng, "R02-g")
 
 
 def run(chk: Check, eng: Engine) -> None:
